@@ -8,15 +8,19 @@ PROP = {
     'checker_vo': 'rp/RpCheck.vo',
     'scenario': 'c01',
     'evals': ['agrees', 'c01_ok'],
+    # --emptycert 1 lifts the default shaping that keeps the entitlement of c at b inside what b is about to hold
+    # (C02 finding F02f: a parent signs a child certificate without resources; seen here as class
+    # certificate_without_resources_published)
     # history 0 always starts with the scripted history of finding F04c (key-roll activation under a smaller new
     # certificate; repaired in 0ff85b31), and the random histories are not shielded from it
     'extra': {'quick': {'histories': 6, 'ops': 40, 'every': 10, 'threads': 6},
               'thorough': {'histories': 48, 'ops': 120, 'every': 12, 'threads': 8}},
     'replay_header': R_HEADER,
     'replay_footer': "Eval vm_compute in (failing agrees base_index cases).\nEval vm_compute in (failing c01_ok base_index cases).\nEval vm_compute in (map diagnose cases).",
-    'stats_keys': ['histories', 'ops_per_history', 'check_every', 'derive_tracking_mismatch', 'masks_inexact'],
+    'stats_keys': ['histories', 'ops_per_history', 'check_every', 'emptycert_mode', 'derive_tracking_mismatch', 'masks_inexact'],
     'harness_timeout': 3000,
     'assumptions': [
+        'default mode keeps the entitlement of the grandchild c at b from missing everything b is about to hold (after every operation; as the C02 scenario does): otherwise an open request of c makes b sign and publish a certificate without resources (C02 finding F02f, not repaired), which no decoder accepts; --emptycert 1 lets it happen',
         'signatures and hashes are perfect: the signature bit of an abstract object is the outcome of the rpki crate\'s cryptographic and profile checks on the real object, a hash is a content identity (two files have the same interned hash iff their SHA-256 agree)',
         'resource sets are abstracted to masks over 12 atoms (AS 64512+i, 10.i.0.0/16, 2001:db8:i::/48) plus one "everything" bit; certificates of the scenario hold unions of whole atoms (measured: masks_inexact = 0), so containment of masks is containment of resource sets; the reference validation decides containment on the real resource sets and must agree',
         'a case is taken at a quiescent point: queued background tasks were run through the scheduler hook until nothing was due, every CA was synchronised with its parent and its repository (at most three rounds); expected payloads are those of the classes whose certificate chain to the trust anchor is intact in the CA states (the parent issues a certificate with the same resources for the class\'s current key)',
